@@ -310,7 +310,29 @@ func Template(t *rapid.T) Case {
 		depth := rapid.IntRange(8, 48).Draw(t, "depth")
 		fan := rapid.IntRange(2, 3).Draw(t, "fan")
 		var b strings.Builder
-		switch rapid.SampledFrom([]string{"typedef-union", "identity-bases", "leaf-union"}).Draw(t, "fan-kind") {
+		switch rapid.SampledFrom([]string{"typedef-union", "identity-bases", "leaf-union", "uses-twice", "twin-union-families"}).Draw(t, "fan-kind") {
+		case "uses-twice":
+			// every grouping uses the one before it twice (the second use collides with the first, or both fail)
+			base := rapid.SampledFrom([]string{"uses nosuch;", "leaf x { type nosuch; }", "leaf x { type string; }", fmt.Sprintf("uses u%d;", depth)}).Draw(t, "fan-base")
+			fmt.Fprintf(&b, "grouping u0 { %s } ", base)
+			for i := 1; i <= depth; i++ {
+				fmt.Fprintf(&b, "grouping u%d {", i)
+				for j := 0; j < fan; j++ {
+					fmt.Fprintf(&b, " uses u%d;", i-1)
+				}
+				b.WriteString(" } ")
+			}
+			fmt.Fprintf(&b, "container c { uses u%d; } ", depth)
+		case "twin-union-families":
+			// two structurally identical typedef families; comparing their tops must not compare every pair below
+			d := depth / 2
+			for _, f := range []string{"p", "q"} {
+				fmt.Fprintf(&b, "typedef %s0 { type string; } typedef %sx0 { type string; units u; } ", f, f)
+				for i := 1; i <= d; i++ {
+					fmt.Fprintf(&b, "typedef %s%d { type union { type %s%d; type %sx%d; } } typedef %sx%d { type union { type %s%d; type %sx%d; } units u; } ", f, i, f, i-1, f, i-1, f, i, f, i-1, f, i-1)
+				}
+			}
+			fmt.Fprintf(&b, "leaf l { type union { type p%d; type q%d; } } ", d, d)
 		case "typedef-union":
 			base := rapid.SampledFrom([]string{"type nosuch;", "type uint8 { range \"5..1\"; }", "type string;", fmt.Sprintf("type f%d;", depth), "type zz:t;", "type string { pattern \"(\"; }", "type leafref { path \"../nosuch\"; }"}).Draw(t, "fan-base")
 			fmt.Fprintf(&b, "typedef f0 { %s } ", base)
